@@ -22,6 +22,9 @@ CHECKS = {
  "C20": ("exhaustive enumeration of field lists with invariant oracle",
          "Every field list up to length 3 (4 thorough) over a 24-field alphabet built to collide (repeated names, aliases equal to generated suffixes, top/bottom with tag arguments, time, nameless literals), and up to length 4 (5) over a 12-field core, x INTO/no INTO x raw/RewriteTimeFields/OmitTime; ColumnNames must have the right length, time first, aliases verbatim, pairwise-distinct names when aliases are distinct, and be pure (two calls equal, statement fingerprint unchanged).",
          "Invariants only; no reference naming algorithm.", "3/C20"),
+ "C11": ("exhaustive enumeration of regex conditions x candidate strings, before/after comparison",
+         "Regexes are every concatenation of <=2 (thorough <=3) atoms from a 34-atom alphabet (literals, classes, groups, alternation, repetition, flags, escapes) inside each of 22 anchor/flag contexts, with both operators and inside AND/OR/parenthesised/duplicated conditions. Every condition that RewriteRegexConditions changes is evaluated before and after with the real EvalBool on every string of length <=4 (5) over {a,b,c,A,newline,x} and on every substituted literal and its neighbours; each literal must be matched in full by the regex and there must be at most 100.",
+         "Go's regexp is the matcher for the original side. Strings longer than the bound are covered only through the literal-neighbour candidates.", "3/C11"),
 }
 ALL = ["C%02d" % i for i in range(1, 21)]
 NOT_YET = "check not built yet in this revision of /verif (work in progress; see DESIGN.md section 3 for the planned bounded-exhaustive check)"
